@@ -33,14 +33,14 @@ def gen_cfg(rng, real=False):
             cfg["batch"] = rng.choice([["h2o"], ["h2o", "hf"]])
             cfg["steps"] = rng.randint(4, 10)
     else:
-        eng = rng.choice(["basic", "basic", "langevin", "xl", "ksa", "xl_damp", "sh_model", "sh_model", "exc_basic", "exc_xl"])
+        eng = rng.choice(["basic", "basic", "langevin", "xl", "ksa", "xl_damp", "sh_model", "sh_model", "exc_basic", "exc_xl", "xl_esmd"])
         cfg = {"engine": eng, "driver": "stub", "batch": rng.choice(STUB_BATCHES), "steps": rng.randint(1, 40)}
         cfg["stub"] = {"pot": rng.choice(["harm", "morse"]), "gamma": 0.3}
         if rng.random() < 0.25:
             cfg["extra_pad"] = 1
-        if eng in ("exc_basic", "exc_xl"):
+        if eng in ("exc_basic", "exc_xl", "xl_esmd"):
             cfg["n_states"] = rng.randint(1, 4)
-            cfg["active_state"] = rng.randint(0, cfg["n_states"])
+            cfg["active_state"] = rng.randint(0 if eng != "xl_esmd" else 1, cfg["n_states"])
         if eng == "sh_model":
             cfg["batch"] = rng.choice([["h2o"], ["h2o", "h2o"], ["nh3", "h2o"]])
             cfg["n_states"] = rng.randint(2, 4)
@@ -54,13 +54,13 @@ def gen_cfg(rng, real=False):
     cfg["seed"] = rng.randrange(1 << 20)
     if eng in ("langevin", "xl_damp"):
         cfg["damp"] = 20.0
-    if eng in ("xl", "xl_damp", "ksa", "exc_xl"):
+    if eng in ("xl", "xl_damp", "ksa", "exc_xl", "xl_esmd"):
         cfg["k"] = rng.randint(3, 9)
     pick = lambda: rng.choice(CADS + [S + 3, S]) if S > 0 else 1
     h5 = {"data": pick(), "coordinates": pick(), "velocities": pick(), "forces": pick()}
     if eng in ("sh", "sh_model"):
         h5["nonadiabatic"] = rng.choice([0, 1, 2, 3, 5, S + 3])
-    if eng in ("exc_basic", "exc_xl"):
+    if eng in ("exc_basic", "exc_xl", "xl_esmd"):
         h5["transition_density_matrices"] = rng.choice([0, 1, 2, 3, 5, S + 3])
     nmol = len(cfg["batch"])
     u = rng.random()
@@ -168,7 +168,7 @@ def _execute(record, root):
         sel = m in cfg["out"]["molid"]
         any_h5 = any(int(v) > 0 for k, v in h5c.items() if k in ("data", "coordinates", "velocities", "forces")) or (
             cfg["engine"] in ("sh", "sh_model") and int(h5c.get("nonadiabatic", 0)) > 0
-        ) or (cfg["engine"] in ("exc_basic", "exc_xl", "sh") and int(h5c.get("transition_density_matrices", 0)) > 0)
+        ) or (cfg["engine"] in mdsim.EXC_ENGINES + ("sh",) and int(h5c.get("transition_density_matrices", 0)) > 0)
         h5_exists = os.path.exists(os.path.join(sparse, f"t.{m}.h5"))
         xyz_exists = os.path.exists(os.path.join(sparse, f"t.{m}.xyz"))
         if h5_exists != (sel and any_h5):
@@ -191,7 +191,7 @@ def _execute(record, root):
             ["data/excitation/transition_density_matrices/values"],
         ),
     }
-    if cfg["engine"] in ("sh", "sh_model", "exc_basic", "exc_xl"):
+    if cfg["engine"] in ("sh", "sh_model") + mdsim.EXC_ENGINES:
         groups["data"][1].append("data/excitation/state_energies")
     for m in cfg["out"]["molid"]:
         for stream, (skey, vkeys) in groups.items():
